@@ -58,6 +58,12 @@ CHECKS = {
  'C20': ('exploration', 'C+A', 'exhaustive enumeration of rows x perturbations x permutations (bitwise) and of every element of every noise draw through the numeric-table seam',
          "For every supported cell and batch 2-3: perturbing another row of y0 or of any noise draw leaves a row bit-identical, permuting rows permutes outputs. On the Brownian side, for every Levy mode, shape and cache size, perturbing any single element of any W-, H- or Levy-noise draw moves only the entries the property allows.",
          "row-wise SDE programs; sizes as stated (exhaustive for those sizes)"),
+ 'C01': ('exploration', 'C+D', 'exhaustive enumeration of cells x closed-form problems x dyadic dt ladder over fixed path sets; composition check; adaptive tolerance ladder',
+         "For every supported cell the RMS error against the closed-form solution evaluated on the same Brownian path, over 1024 fixed paths, decays along dt = 2^-3..2^-7 (thorough 2^-9, 4 path sets) with least-squares slope >= advertised order - 0.3 (healthy cells observed within 0.11), the N-step solve is bitwise the composition of step on its recorded increments, and adaptive errors do not grow as tolerances tighten. Together with C02 (local obligations at exactly the advertised order), C12 and C03/C04 this gives the order claim via Milstein's fundamental theorem.",
+         "the limit dt->0 and the expectation over Wiener measure are not enumerable: the ladder is a bounded witness on fixed paths"),
+ 'C02': ('exploration', 'D', 'exhaustive enumeration of cells x programs x base points x Gauss-Hermite increment grids x eps ladder through the real step with a scripted Brownian stub; oracle = Kloeden-Platen strong Taylor expansion from explicit nested Jacobians',
+         "For every supported cell (incl. grad-free Milstein, log-ODE with Levy area input) the quadrature norm over all increment nodes of step - Taylor_p decays with slope >= 2p+1/2 in sqrt(h) (observed exactly 2p+1), |E step - E exact| with slope >= 2p+3/2 (observed 2p+2 or machine zero), at p = the solver's advertised strong order (which must equal the documented one); Euler and derivative Milstein equal their textbook formulas to 1e-13. With 7 nodes per dW coordinate (thorough) vanishing on the grid is vanishing identically for the polynomial coefficients involved.",
+         "asymptotic statement checked on a finite eps ladder; program alphabet of mc/zoo.py (non-symmetric Jacobians, non-commuting columns, time dependence)"),
 }
 def main():
     checks = []
@@ -68,7 +74,7 @@ def main():
                            level_claimed=dict(category=cat, text=text, design_ref="DESIGN.md section 5 (" + pid + ")"),
                            level_note=note, technique=tech))
     props = [json.loads(l)['id'] for l in open(os.path.join(HERE, 'properties.jsonl'))]
-    na = [dict(property_id=p, reason="check not built yet in this snapshot (work in progress; see DESIGN.md section 5 for the plan)")
+    na = [dict(property_id=p, reason="check not built yet in this snapshot (see DESIGN.md section 5 for the plan)")
           for p in props if p not in CHECKS]
     m = dict(version=1,
              setup_cmd="true",
